@@ -1,6 +1,6 @@
 #!/bin/sh
 # benignrun.sh <name> <PID>...  — apply /verif/benign/<name>.diff to /repo, run the given checks (full FINDING text), undo
-P="/verif/benign/$1.diff"; shift
+D="${BENIGN_DIR:-/verif/benign}"; P="$D/$1.diff"; shift
 git -C /repo apply "$P" || exit 3
 for pid in "$@"; do
   /verif/check "$pid" | grep -E "^(FINDING|TOOL|$pid tier)" | cut -c1-900
